@@ -378,6 +378,12 @@ pub fn run(sc: &Scenario, opts: &RunOptions) -> RunRecord {
             if rx_has && stall_until > now {
                 next = Some(next.map_or(stall_until, |n| n.min(stall_until)));
             }
+            // timers of the simulated clock (tokio::time::sleep / timeout in the code under test)
+            if let Some(t) = sim.next_timer() {
+                if t > now {
+                    next = Some(next.map_or(t, |n| n.min(t)));
+                }
+            }
             match next {
                 Some(t) => {
                     sim.jump_to(t);
